@@ -365,7 +365,8 @@ func (s *SecureChannel) Receive(ctx context.Context) *MessageBody {
 
 			case 'C':
 				s.chunks[reqID] = append(s.chunks[reqID], chunk)
-				if n := len(s.chunks[reqID]); uint32(n) > s.c.MaxChunkCount() {
+				// a limit of zero means "no limit" (Part 6, 7.1.2.3/7.1.2.4)
+				if n, max := len(s.chunks[reqID]), s.c.MaxChunkCount(); max > 0 && uint32(n) > max {
 					delete(s.chunks, reqID)
 					s.chunksMu.Unlock()
 					msg.Err = errors.Errorf("too many chunks: %d > %d", n, s.c.MaxChunkCount())
@@ -387,7 +388,7 @@ func (s *SecureChannel) Receive(ctx context.Context) *MessageBody {
 				return msg
 			}
 
-			if uint32(len(b)) > s.c.MaxMessageSize() {
+			if max := s.c.MaxMessageSize(); max > 0 && uint32(len(b)) > max {
 				msg.Err = errors.Errorf("message too large: %d > %d", uint32(len(b)), s.c.MaxMessageSize())
 				return msg
 			}
